@@ -23,6 +23,13 @@ fn invalid_calls(c: &Compiled, can_continue: bool, nchoices: usize, rng: &mut Rn
     v.push(("evaluate-unknown-function", Op::EvalFn("no_such_fn".into(), vec![]), true));
     v.push(("evaluate-blank-function", Op::EvalFn("  ".into(), vec![]), true));
     v.push(("evaluate-empty-function", Op::EvalFn(String::new(), vec![Val::Int(1)]), true));
+    // an existing function, but an argument the engine cannot pass (a divert target read back from a global)
+    if let Some(m) = &c.meta
+        && let Some(f) = m.functions.first()
+        && c.info.globals.iter().any(|g| g == "gd")
+    {
+        v.push(("evaluate-existing-function-bad-argument", Op::EvalFnVarArg(f.0.clone(), "gd".into()), true));
+    }
     v.push(("jump-unknown-path-reset", Op::ChoosePath("no_such_knot".into(), true), true));
     v.push(("jump-unknown-path-keep", Op::ChoosePath("no_such_knot.nor_stitch".into(), false), true));
     v.push(("bind-twice", Op::Bind("hostfn".into(), true), true));
@@ -53,6 +60,7 @@ pub fn run(cfg: &Cfg) -> i32 {
     let nprog = cfg.get_u64("programs", cfg.pick(40, 1500));
     let mut gc = GenCfg::rich();
     gc.externals = true;
+    gc.divert_global = true;
     let opts = CmpOpts::default();
     let mut sampled = 0;
     for i in 0..nprog {
